@@ -81,6 +81,8 @@ var rtIntrinsics map[string]externalFn
 // natively; harnesses exclude exactly those regions.  Set once before Explore.
 var LiveFindings = map[string]bool{}
 
+var globalRandCell value
+
 func init() {
 	rtIntrinsics = map[string]externalFn{
 		"Symbolic": func(fr *frame, a []value) value { return true },
@@ -547,6 +549,35 @@ func init() {
 		c := p.choice(n)
 		p.draws = append(p.draws, Draw{Name: "rand.Intn", Kind: "choice", Cval: uint64(c)})
 		return c
+	}
+	// the package-level functions of math/rand draw from ONE process-wide source: the same
+	// choice semantics, plus a read and a write of a global pseudo-cell in the footprint
+	// log (two actors that both use the global source interfere through it)
+	touchGlobalRand := func(fr *frame) {
+		if fp := fr.i.p.foot; fp != nil {
+			fp.site = "math/rand global source"
+			fp.read(&globalRandCell)
+			fp.write(&globalRandCell)
+		}
+	}
+	stdStubs["math/rand.Seed"] = func(fr *frame, a []value) value { touchGlobalRand(fr); return nil }
+	stdStubs["math/rand.Intn"] = func(fr *frame, a []value) value {
+		touchGlobalRand(fr)
+		p := fr.i.p
+		n := a[0].(int)
+		if n <= 0 {
+			panic("invalid argument to Intn")
+		}
+		c := p.choice(n)
+		p.draws = append(p.draws, Draw{Name: "rand.Intn", Kind: "choice", Cval: uint64(c)})
+		return c
+	}
+	stdStubs["math/rand.Float64"] = func(fr *frame, a []value) value {
+		touchGlobalRand(fr)
+		p := fr.i.p
+		c := p.choice(2)
+		p.draws = append(p.draws, Draw{Name: "rand.Float64", Kind: "choice", Cval: uint64(c)})
+		return []float64{0.25, 0.75}[c]
 	}
 	stdStubs["fmt.Errorf"] = func(fr *frame, a []value) value {
 		return mkError(fr, miniFormat(str(a[0]), a[1].([]value)))
